@@ -18,7 +18,7 @@ from docutils.parsers.rst.states import Body, Inliner, RSTStateMachine
 from docutils.statemachine import StringList
 from docutils.utils import unescape
 
-from .parsers.directives import MarkupError, parse_directive_text
+from .parsers.directives import MarkupError, parse_directive_text, split_lines
 
 if TYPE_CHECKING:
     from .mdit_to_docutils.base import DocutilsRenderer
@@ -433,7 +433,7 @@ class MockIncludeDirective:
         # get required section of text
         startline = self.options.get("start-line", None)
         endline = self.options.get("end-line", None)
-        file_content = "\n".join(file_content.splitlines()[startline:endline])
+        file_content = "\n".join(split_lines(file_content)[startline:endline])
         startline = startline or 0
         for split_on_type in ["start-after", "end-before"]:
             split_on = self.options.get(split_on_type, None)
@@ -465,7 +465,7 @@ class MockIncludeDirective:
                     raise DirectiveError(
                         3, ":number-lines: with non-integer start value"
                     ) from err
-                endline = startline + len(file_content.splitlines())
+                endline = startline + len(split_lines(file_content))
                 if file_content.endswith("\n"):
                     file_content = file_content[:-1]
                 tokens = NumberLines([([], file_content)], startline, endline)
@@ -485,7 +485,7 @@ class MockIncludeDirective:
                 name=self.name,
                 arguments=[self.options.pop("code")],
                 options=self.options,
-                content=file_content.splitlines(),
+                content=split_lines(file_content),
                 lineno=self.lineno,
                 content_offset=0,
                 block_text=file_content,
